@@ -297,8 +297,13 @@ func Run(name string, h func()) (ok bool) {
 				// a panic at a site recorded as a known finding ends the run like the finding's class
 				stack := string(debug.Stack())
 				for _, kp := range knownPanics {
-					site := strings.TrimSuffix(strings.TrimSuffix(kp[1], ")"), ")")
-					if cur.Known[kp[0]] && (strings.Contains(stack, site) || strings.Contains(stack, strings.ReplaceAll(site, ").", ")."))) {
+					// "site | kind": the part after " | " restricts the attribution to panics whose text contains it
+					where, kindPart := kp[1], ""
+					if i := strings.Index(where, " | "); i >= 0 {
+						where, kindPart = where[:i], where[i+3:]
+					}
+					site := strings.TrimSuffix(strings.TrimSuffix(where, ")"), ")")
+					if cur.Known[kp[0]] && strings.Contains(stack, site) && strings.Contains(fmt.Sprint(r), kindPart) {
 						fmt.Printf("VP-KNOWN %s panic %v\n", kp[0], r)
 						fmt.Printf("VP-RESULT assume-false\n")
 						ok = true
